@@ -599,3 +599,31 @@ void abtv_assert_fail(const char *expr, const char *file, unsigned line, const c
     snprintf(cls, sizeof cls, "assert:%s:%u", s ? s + 1 : file, line);
     sim_fail(cls, "assertion `%s' failed in %s", expr, func);
 }
+
+/* ---- SanitizerCoverage callbacks (variant VP only; nothing calls them otherwise) ---- */
+void sim_plain_access(void);
+void __sanitizer_cov_trace_pc_guard_init(uint32_t *start, uint32_t *stop)
+{
+    (void)start;
+    (void)stop;
+}
+void __sanitizer_cov_trace_pc_guard(uint32_t *guard)
+{
+    (void)guard;
+}
+#define COV_CB(name)                                                           \
+    void name(void *addr)                                                      \
+    {                                                                          \
+        (void)addr;                                                            \
+        sim_plain_access();                                                    \
+    }
+COV_CB(__sanitizer_cov_load1)
+COV_CB(__sanitizer_cov_load2)
+COV_CB(__sanitizer_cov_load4)
+COV_CB(__sanitizer_cov_load8)
+COV_CB(__sanitizer_cov_load16)
+COV_CB(__sanitizer_cov_store1)
+COV_CB(__sanitizer_cov_store2)
+COV_CB(__sanitizer_cov_store4)
+COV_CB(__sanitizer_cov_store8)
+COV_CB(__sanitizer_cov_store16)
